@@ -2,9 +2,10 @@
 
 ID = "C03"
 HARNESS_TEST = "TestC03.*"
-COQ_MODEL = ["C03/Check.v"]
+GEN = "c03"
+COQ_MODEL = ["C03/Check.v", "C03/Discipline.v", "Gen/C03Facts.v"]
 COQ_PROOF_DEPS = ["C03/Proofs.v"]
-COQ_OBLIG = ["C03/Property.v"]
+COQ_OBLIG = ["C03/Property.v", "Gen/C03Oblig.v"]
 CASES_HEADER = "Require Import Nib.C03.Model Nib.C03.Ref Nib.C03.Spec Nib.C03.Check."
 CASE_TYPE = "case"
 MISMATCH_FN = "mismatch"
